@@ -77,8 +77,8 @@ def gen_cases(tier, seed):
         k = cand[int(rng.integers(len(cand)))]
         ops.insert(k + 1, dict(ops[k]))  # adjacent repeat: same pool state, same key
         fp = ["default", "raise", "ignore", "call", "default"][i % 5]
-        cases.append({"kind": "history", "shells": shells, "ops": ops[:34], "fp": fp, "pool_seed": [seed, i], "pool_rep": bool(i % 3 == 1),
-                      "classes": classes + ["fp:" + fp, "nops:%d" % len(ops[:34])] + (["pool:array-representations"] if i % 3 == 1 else []), "cost": len(ops) * (1 + sum(ls)) ** 2})
+        cases.append({"kind": "history", "shells": shells, "ops": ops[:34], "fp": fp, "pool_seed": [seed, i], "pool_rep": bool(i % 3 == 1), "pool_mc": bool(i % 4 == 2),
+                      "classes": classes + ["fp:" + fp, "nops:%d" % len(ops[:34])] + (["pool:array-representations"] if i % 3 == 1 else []) + (["pool:basis-from-make_contractions"] if i % 4 == 2 else []), "cost": len(ops) * (1 + sum(ls)) ** 2})
     if tier == "thorough":
         # the repository's own, unedited test-suite as a workload with the sentinels on (pytest plugin vmon.pytest_plugin)
         cases.append({"kind": "testsuite", "classes": ["repo-testsuite-under-monitors"], "cost": 1e9})
@@ -129,7 +129,20 @@ class Mole:
 def make_pool(case, files):
     rng = bases.rng_for("C19pool", *case["pool_seed"])
     shells = case["shells"]
-    basis = tuple(cm.build(shells))
+    if case.get("pool_mc"):
+        # the shared basis comes from make_contractions for a molecule that repeats an element (H He H): the shells of the
+        # two H atoms are built from the same dictionary entry, which is where sibling shells could come to share state
+        from gbasis.parsers import make_contractions
+
+        sh_h, sh_he = shells[:1], shells[1:]
+        c_h1, c_he = np.array(sh_h[0]["c"], dtype=float), np.array(sh_he[0]["c"], dtype=float)
+        c_h2 = c_h1 + np.array([1.1, 0.3, -0.7])
+        bd = {"H": [(int(s["l"]), np.array(s["e"], dtype=float), np.array(s["k"], dtype=float)) for s in sh_h],
+              "He": [(int(s["l"]), np.array(s["e"], dtype=float), np.array(s["k"], dtype=float)) for s in sh_he]}
+        shells = [dict(s, c=[float(v) for v in c_h1]) for s in sh_h] + [dict(s, c=[float(v) for v in c_he]) for s in sh_he] + [dict(s, c=[float(v) for v in c_h2]) for s in sh_h]
+        basis = tuple(make_contractions(bd, ["H", "He", "H"], np.array([c_h1, c_he, c_h2]), coord_types=[bases.TYPES[s["t"]] for s in shells]))
+    else:
+        basis = tuple(cm.build(shells))
     n = sum(bases.nfunc(s) for s in shells)
     a = rng.normal(size=(n, n))
     P = {
@@ -319,7 +332,12 @@ def apply_update(name, P, o, frozen=False):
         else:
             s.coord[:] = s.coord + np.array(r[:3]) - 0.5
         with np.errstate(under="ignore"):  # the harness' own renormalisation call must not trip the history's FP setting
-            s.assign_norm_cont()
+            # shells made by make_contractions for two atoms of one element hold the SAME exponent / coefficient arrays (the
+            # ones of the basis dictionary): an in-place edit changes the parameters of all of them, so the caller
+            # renormalises all of them (the property promises normalisation only after it has been recomputed)
+            for t_ in P["basis"]:
+                if t_ is s or np.shares_memory(t_.exps, s.exps) or np.shares_memory(t_.coeffs, s.coeffs):
+                    t_.assign_norm_cont()
         if frozen:
             mi.freeze(s)
         return s
